@@ -34,7 +34,7 @@ PROP = {
         "n_thorough": 2000,
     }],
     "rule": ("suite kernels: each case = 20 calls of the real exported Go kernels (TokensFromShares, SharesFromTokens, CalculateUSDValue, "
-             "SlashFromUndelegation, GasToRefund, ExceedsThreshold) and of three keeper-style compositions (RoundTrip, BystanderD, BystanderU) on "
+             "SlashFromUndelegation, GasToRefund, ExceedsThreshold), of the keeper-embedded kernels (decision part of x/epochs BeginBlocker through the real keeper, utils.SortByPower's comparator, the slash proportion of SlashAssets), of the LegacyDec method table (Quo/QuoTruncate/QuoRoundUp/Mul/MulTruncate) and of three keeper-style compositions (RoundTrip, BystanderD, BystanderU) on "
              "boundary-biased inputs (0, 1, 10^18 +-1, 10^18/2 ties, 10^36, 2^63, 2^64-1, 2^255 +-1, 2^256-1, 2^314/2^315 Dec guard, primes, "
              "negative values, pools after 0/50/99.99 % slashes, S = 2*P*T tie family, pools outside the exchange-rate guard); results are compared "
              "as value / registered error name / panic. suite ledger: each case = 6..30 operations (Deposit, Delegate, Undelegate, Associate, "
